@@ -339,6 +339,9 @@ fn main() {
                     // receivers that remember failed objects (a late joiner may fail an object once before it knows the
                     // FDT: the next cycle must clear that) alternate with receivers that do not
                     o.config.max_objects_error = if j % 2 == 0 { 0 } else { 4 };
+                    // one join offset in three: cleanup() after every packet, as an application timer (and the crate's own
+                    // tests) call it - housekeeping must not throw away what the late joiner is in the middle of receiving
+                    o.cleanup_every_push = j % 3 == 1;
                     receive(&b.run.spec.endpoint(), b.run.stream[j..end].iter().map(|p| (p.bytes.as_slice(), p.t)), &o, None)
                 });
                 let wit = |extra: serde_json::Value| json!({"config": b.cfg.name(), "join_offset": j, "window_end": end, "detail": extra,
@@ -366,7 +369,7 @@ fn main() {
                         cr.violations.push(Violation::new("late_joiner_misses_object", format!(
                             "{}: receiver joining at packet {} does not deliver object {} (TOI {}) within two further full cycles (window end {}); writers: {:?}", b.cfg.name(), j, k, toi, end, traces))
                             .with("fec", b.cfg.fec.name()).with("inband_fti", b.cfg.inband_fti).with("full_fdt", b.cfg.full_fdt).with("cenc", b.cfg.cenc.name()).with("inband_cenc", b.cfg.inband_cenc)
-                            .with("join_kind", join_kind).with("no_writer", ws.is_empty()).with("receiver_keeps_failed_objects", j % 2 == 1)
+                            .with("join_kind", join_kind).with("no_writer", ws.is_empty()).with("receiver_keeps_failed_objects", j % 2 == 1).with("cleanup_after_every_push", j % 3 == 1)
                             .witness(wit(json!({"object": k, "writers": traces}))));
                     }
                     if let Some(w) = ws.last() {
